@@ -94,6 +94,7 @@ var ReplaceNumbersInWords = false
 // example, "ORDER BY col ASC" is the same as "ORDER BY col", so "ASC" in the
 // fingerprint is removed.
 func GetFingerprint(q string) string {
+	q = stripComments(q)
 	q += " " // need range to run off end of original query
 	prevWord := ""
 	// The fingerprint can be longer than the query, e.g. "in(1)" becomes "in(?+)"
@@ -676,6 +677,64 @@ func GetFingerprint(q string) string {
 
 	// Return the fingerprint.
 	return string(f[0:fi])
+}
+
+// stripComments replaces every comment of q by one space, like the server treats
+// it: "-- " and "#" up to the end of the line, /* ... */ anywhere between two tokens.
+// Quoted text ('...', "...", `...`) and /*! MySQL-specific code */ are left alone.
+func stripComments(q string) string {
+	if !strings.ContainsAny(q, "#-/") {
+		return q
+	}
+	var b strings.Builder
+	b.Grow(len(q))
+	n := len(q)
+	for i := 0; i < n; {
+		c := q[i]
+		switch {
+		case c == '\'' || c == '"' || c == '`':
+			// copy the quoted text including its quotes
+			j := i + 1
+			for j < n {
+				if q[j] == '\\' && c != '`' {
+					j += 2
+					continue
+				}
+				if q[j] == c {
+					j++
+					if j < n && q[j] == c {
+						// doubled quote
+						j++
+						continue
+					}
+					break
+				}
+				j++
+			}
+			if j > n {
+				j = n
+			}
+			b.WriteString(q[i:j])
+			i = j
+		case c == '#', c == '-' && i+2 < n && q[i+1] == '-' && isSpace(rune(q[i+2])):
+			for i < n && q[i] != '\n' {
+				i++
+			}
+			b.WriteByte(' ')
+		case c == '/' && i+1 < n && q[i+1] == '*' && !(i+2 < n && q[i+2] == '!'):
+			end := strings.Index(q[i+2:], "*/")
+			if end < 0 {
+				i = n
+			} else {
+				i += 2 + end + 2
+			}
+			b.WriteByte(' ')
+		default:
+			b.WriteByte(c)
+			i++
+		}
+	}
+	return b.String()
 }
 
 func isSpace(r rune) bool {
